@@ -16,7 +16,7 @@ from ..worlds import relay
 ID = "C15"
 LEVEL = "exploration"
 CHUNK = 40
-BUDGET = {"quick": {"runs": 2500, "wall": 150}, "thorough": {"runs": 100000, "wall": 3000}}
+BUDGET = {"quick": {"runs": 2500, "wall": 150}, "thorough": {"runs": 100000, "wall": 1200}}
 RULE = ("2-3 connections x 1-5 AUTH attempts each: valid answers and neighbours (kind 22241/22243/1, "
         "corrupted signature, signed by another key, claimed foreign pubkey, challenge of another or an "
         "earlier connection, literal/empty/missing challenge, missing or duplicated tags, relay URL exact / "
